@@ -23,6 +23,8 @@ class Profile:
     styles: tuple = ("name", "callable", "decorator")
     providers: tuple = ("machine", "model", "L0", "L1")
     p_coro: float = 0.0
+    p_sync_scn: float = 0.0          # scenarios without any coroutine callback (p_coro is per callback: with a dozen
+                                     # callbacks nearly every scenario would otherwise be async, and rtc=False never drawn)
     max_yields: int = 2
     n_ops: tuple = (3, 12)
     p_unknown_event: float = 0.15
@@ -359,6 +361,9 @@ def gen_ops(rng: random.Random, P: Profile, scn: Scn, evs):
 def gen_scenario(rng: random.Random, P: Profile, name: str) -> Scn:
     scn = Scn(name=name)
     evs = gen_machine(rng, P, scn)
+    if P.p_sync_scn > 0 and rng.random() < P.p_sync_scn:
+        import dataclasses
+        P = dataclasses.replace(P, p_coro=0.0)
     gen_callbacks(rng, P, scn, evs)
     scn.allow = rng.random() < P.p_allow
     scn.driver = rng.choice(P.drivers)
